@@ -37,12 +37,19 @@ struct Shared {
   BilinearForm<IdentityOperator, IdentityOperator> overlap{};
   // operators and forms with run-time state, themselves shared as const objects; the splines they are applied to live
   // on two different grid storages (the generated basis has its own, equal, grid; the potential lives on `grid`)
+  Spline<T, 1> other;                    // lives on a logically different grid
   decltype(SplineOperator{std::declval<Spline<T, 1>>()}) vop;
   decltype(BilinearForm{makeHamilton(std::declval<Spline<T, 1>>())}) hshared;
   decltype(LinearForm{SplineOperator{std::declval<Spline<T, 1>>()}}) vlin;
   Shared(Grid<T> g, std::vector<T> k, Spline<T, 1> v)
       : grid(g), knots(k), basis(bspline::generateBSplines<3>(k)), potential(std::move(v)), generator(k, g),
-        vop(potential), hshared(makeHamilton(potential)), vlin(SplineOperator{potential}) {}
+        other(makeOther(potential)), vop(potential), hshared(makeHamilton(potential)), vlin(SplineOperator{potential}) {}
+  static Spline<T, 1> makeOther(const Spline<T, 1> &v) {
+    std::vector<T> pts;
+    for (const auto &x : v.getSupport()) pts.push_back(x + static_cast<T>(1) / static_cast<T>(3));
+    Grid<T> g2(pts);
+    return Spline<T, 1>(Support<T>::createWholeGrid(g2), v.getCoefficients());
+  }
 };
 
 template <typename T>
@@ -110,6 +117,18 @@ static std::vector<uint64_t> work(const Shared<T> &sh, unsigned tid, unsigned ro
     out.push_back(bits(sh.overlap(a, b)));
     out.push_back(bits(hform(a, b)));
     out.push_back(bits(lform(a)));
+    // documented error cases, hit by all threads at once: the exception objects and their texts are per call
+    {
+      auto text = [&](const std::exception &e) {
+        uint64_t h = 1469598103934665603ull;
+        for (const char *p = e.what(); *p; p++) { h ^= static_cast<unsigned char>(*p); h *= 1099511628211ull; }
+        out.push_back(h);
+      };
+      try { (void)Support<T>::createEmpty(sh.grid).front(); out.push_back(0); } catch (const std::exception &e) { text(e); }
+      try { (void)a.getSupport().at(a.getSupport().size() + r); out.push_back(0); } catch (const std::exception &e) { text(e); }
+      try { (void)(a + sh.potential * sh.other); out.push_back(0); } catch (const std::exception &e) { text(e); }
+      try { (void)bspline::generateBSplines<3>(std::vector<T>{static_cast<T>(0), static_cast<T>(1)}); out.push_back(0); } catch (const std::exception &e) { text(e); }
+    }
     // generate (const member of a shared generator)
     if (r % 8 == 0) {
       const auto fresh = sh.generator.template generateBSplines<2>();
